@@ -434,7 +434,8 @@ impl Sim {
         }));
         match res {
             Ok((dump, bytes)) => {
-                self.record(&format!("SYN {n}"), &dump);
+                let node_dump = self.dump_node(n);
+                self.record(&format!("SYN {n}"), &format!("{dump} | {node_dump}"));
                 Some(bytes)
             }
             Err(_) => {
@@ -497,6 +498,26 @@ impl Sim {
                 self.record(&op, &format!("reply {} bytes {} | {}", dump, bytes.len(), obs));
                 Some(bytes)
             }
+        }
+    }
+
+    /// `ChitchatMessage::deserialize` on arbitrary bytes: outcome, structure, unconsumed rest and
+    /// announced length are compared with the model's decoder.
+    pub fn decode(&mut self, bytes: &[u8]) {
+        if self.dead_case {
+            return;
+        }
+        let res = catch_unwind(AssertUnwindSafe(|| {
+            let mut buf = bytes;
+            match ChitchatMessage::deserialize(&mut buf) {
+                Ok(m) => format!("OK {} rest {} slen {}", verif_dump_message(&m), buf.len(), m.serialized_len()),
+                Err(_) => "ERR".to_string(),
+            }
+        }));
+        let op = format!("DECODE {}{}", hex(bytes), crate::util::zd_table_of_message(bytes));
+        match res {
+            Ok(obs) => self.record(&op, &obs),
+            Err(_) => self.record_panic(&op),
         }
     }
 
